@@ -1,13 +1,17 @@
 import Tahoe.Base.DrvUtil
 import Tahoe.Base.Sha256
 import Tahoe.Immutable.Convergence
+import Tahoe.Immutable.Uploadable
 /-! Driver for C05 (convergent keys, literal threshold).  The abstract hasher is instantiated with the
     executable SHA-256d of `Tahoe.Base.Sha256` (state = bytes fed so far).
     `tag K N SEGSIZE SECRET`                    → tag hex | `ValueError`
     `netstring HEX`                             → hex
     `key K N SEGSIZE SECRET CHUNKS`             → `KEYHEX;SIHEX` (CHUNKS = hex,hex,… results of successive read() calls; `-` = empty read)
     `cap CONV URANDOM K N MAXSEG PT CHUNKS`     → `LIT;DATAHEX;0` | `CHK;KEYHEX;K;N;SIZE;SIHEX;PUSHED` | `error`
-                                                  (CONV = N for no convergence secret) -/
+                                                  (CONV = N for no convergence secret)
+    `via KEY K N MAXSEG CHUNK DATA SIZES`       → `pos+len,…;LIT;DATAHEX;0` | `pos+len,…;CHK;KEYHEX;K;N;SIZE;PUSHED` | `…;error`
+                                                  Uploader.upload on an IUploadable whose read() returns the bytes in pieces of
+                                                  the cycling SIZES (`-` = one piece): the read(pos,len) calls of the CHK path, the result -/
 open Tahoe.Drv Tahoe.Immutable Tahoe.Immutable.Convergence Tahoe.Base.Sha256
 open Tahoe.Generated
 
@@ -48,6 +52,18 @@ def handle : List String → String
         match r.cap with
         | .lit d => s!"LIT;{hexOfBytes d};{r.sharesPushed}"
         | .chk key _ k n size => s!"CHK;{hexOfBytes key};{k};{n};{size};{hexOfBytes (siHash key)};{r.sharesPushed}"
+    | _, _, _, _, _, _, _ => "bad-op"
+  | ["via", key, k, n, maxSeg, chunk, data, sizes] =>
+    match bytesOfHex key, k.toNat?, n.toNat?, maxSeg.toNat?, chunk.toNat?, bytesOfHex data, parseNatList sizes with
+    | some key, some k, some n, some maxSeg, some chunk, some data, some sizes =>
+      let r := Uploadable.uploadCapVia (fun _ _ _ _ _ => []) (Uploadable.chunkySource data sizes (fun _ => key)) k n maxSeg chunk
+      let calls := if r.1.isEmpty then "-" else ",".intercalate (r.1.map (fun c => s!"{c.1}+{c.2}"))
+      match r.2 with
+      | none => calls ++ ";error"
+      | some res =>
+        match res.cap with
+        | .lit d => s!"{calls};LIT;{hexOfBytes d};{res.sharesPushed}"
+        | .chk key _ k n size => s!"{calls};CHK;{hexOfBytes key};{k};{n};{size};{res.sharesPushed}"
     | _, _, _, _, _, _, _ => "bad-op"
   | _ => "bad-op"
 
